@@ -1124,8 +1124,12 @@ impl M {
             _ => pre_enabled,
         };
         // Some(true) = must generate, Some(false) = must not, None = statement silent
+        // The tick that disables trading ends with trading disabled: requests the strategy generated
+        // on it were issued "while disabled" (the mirror image of "re-enabling resumes generation on
+        // that very event"), so it is judged like any other disabled tick, under its own signature.
+        let disabling = !enabled_after && pre_enabled;
         let must_gen: Option<bool> = if !enabled_after {
-            if pre_enabled { None } else { Some(false) }
+            Some(false)
         } else if is_cmd || matches!(ev, Ev::Shutdown) {
             None
         } else {
@@ -1160,7 +1164,8 @@ impl M {
                     leak = Some(("reported", "audit carries algo order output".into()));
                 }
                 if let Some((what, d)) = leak {
-                    out.push((format!("C03/disabled/strategy-request-{what}"), format!("trading disabled, event {ev:?}: {d}")));
+                    let when = if disabling { "disabled/on-the-disabling-event" } else { "disabled" };
+                    out.push((format!("C03/{when}/strategy-request-{what}"), format!("trading disabled, event {ev:?}: {d}")));
                 }
             }
             Some(true) => {
@@ -1403,7 +1408,7 @@ pub fn run(ctx: &Ctx) -> Outcome {
             "histories bounded by depth; at most 2 simultaneously tracked strategy/command orders; 2-3 exchanges, 3-4 instruments".into(),
             "a history ends at the first terminal tick (unrecoverable error or Shutdown)".into(),
             "the strategy never cancels the order that the same tick's order snapshot addresses (that outcome is C01's subject)".into(),
-            "whether algo generation runs after a command / Shutdown / on the disabling event is not demanded (statement silent)".into(),
+            "whether algo generation runs after a command / Shutdown is not demanded (statement silent); the event that disables trading is judged as a disabled tick".into(),
             "an error on a present-but-unhealthy link (recoverable send error) is required to be reported as recoverable (design reading of 'fatal if the link is gone or the exchange has no link')".into(),
         ],
     }
